@@ -69,3 +69,95 @@ def check(solver_asserts, timeout_ms=60000):
     r = s.check()
     dt = time.time() - t0
     return str(r), (s.model() if str(r) == 'sat' else None), dt, s.to_smt2()
+
+
+# ---- RX-lang: Python regular expression (re._parser AST) -> z3 regular expression ---------------------------
+
+def re_to_z3(pattern, flags=0):
+    """translate a Python regex (as text) into a z3 RegEx over strings; raises Untranslatable for constructs
+    outside the supported subset (look-around, back-references, anchors inside, ...)"""
+    import re
+    try:
+        import re._parser as sre_parse
+        import re._constants as sre
+    except ImportError:            # Python < 3.11
+        import sre_parse
+        import sre_constants as sre
+    tree = sre_parse.parse(pattern, flags)
+    dotall = bool(flags & re.DOTALL)
+    S = z3.StringSort()
+    RS = z3.ReSort(S)
+    anychar = z3.AllChar(RS)
+
+    def char(c):
+        return z3.Re(z3.StringVal(chr(c)))
+
+    def cls(items):
+        neg = False
+        parts = []
+        for op, av in items:
+            if op == sre.NEGATE:
+                neg = True
+            elif op == sre.LITERAL:
+                parts.append(char(av))
+            elif op == sre.RANGE:
+                parts.append(z3.Range(chr(av[0]), chr(av[1])))
+            elif op == sre.CATEGORY:
+                if av == sre.CATEGORY_DIGIT:
+                    parts.append(z3.Range('0', '9'))
+                elif av == sre.CATEGORY_SPACE:
+                    parts.extend([char(ord(c)) for c in ' \t\n\r\f\v'])
+                else:
+                    raise Untranslatable('category %s' % av)
+            else:
+                raise Untranslatable('class item %s' % op)
+        u = parts[0] if len(parts) == 1 else z3.Union(*parts)
+        if neg:
+            return z3.Intersect(anychar, z3.Complement(u))
+        return u
+
+    def seqn(items):
+        out = [node(op, av) for op, av in items]
+        if not out:
+            return z3.Re(z3.StringVal(''))
+        if len(out) == 1:
+            return out[0]
+        return z3.Concat(*out)
+
+    def node(op, av):
+        if op == sre.LITERAL:
+            return char(av)
+        if op == sre.NOT_LITERAL:
+            return z3.Intersect(anychar, z3.Complement(char(av)))
+        if op == sre.ANY:
+            if dotall:
+                return anychar
+            return z3.Intersect(anychar, z3.Complement(char(10)))
+        if op == sre.IN:
+            return cls(av)
+        if op in (sre.MAX_REPEAT, sre.MIN_REPEAT):
+            lo, hi, sub = av
+            r = seqn(sub)
+            if hi == sre.MAXREPEAT:
+                if lo == 0:
+                    return z3.Star(r)
+                if lo == 1:
+                    return z3.Plus(r)
+                return z3.Concat(z3.Loop(r, lo, lo), z3.Star(r))
+            if lo == 0 and hi == 1:
+                return z3.Option(r)
+            return z3.Loop(r, lo, hi)
+        if op == sre.SUBPATTERN:
+            return seqn(av[3])
+        if op == sre.BRANCH:
+            alts = [seqn(a) for a in av[1]]
+            return alts[0] if len(alts) == 1 else z3.Union(*alts)
+        raise Untranslatable('regex op %s' % op)
+
+    return seqn(tree)
+
+
+def rule_pattern(lexer_cls, rule):
+    """the pattern text of a t_* rule of the real lexer class (docstring of the function or string attribute)"""
+    r = getattr(lexer_cls, rule)
+    return r if isinstance(r, str) else r.__doc__
